@@ -42,7 +42,7 @@ def main(tier, seed, replay=None, pid='C02'):
     if extra:
         extra(ck, tier)
     ck.assumptions += ['hash collisions do not occur on the inputs met', 'operations are issued one at a time (no concurrency in this check)']
-    return ck.finish()
+    return ck.finish(search=tracecheck.crash_search(ck, pid))
 
 
 def _traces(names):
